@@ -9,6 +9,9 @@ NOTE_COMMON = ("Trusted: go/ssa lowering (x/tools v0.29.0), the symgo executor's
                "in the evidence file (coverage.bounds / coverage.outside_claim) and DESIGN.md. unknown/timeout/unsupported are reported "
                "as INCONCLUSIVE, never as success or violation. ")
 claimed = {
+ 'C14': dict(cat='model_checking', ref='5/C14',
+   text="Each helper that interprets UE-supplied IE contents is executed symbolically on every byte string (all octets symbolic) of every length 0..12 (24) - strings for the text-input variants - with the real encoding/hex, strconv and math/bits code; every index, slice and nil site is a solver query (a satisfiable one is replayed natively as a panic) and every loop must terminate within an unwinding limit (a loop still running is replayed natively under a deadline as a hang).",
+   note="Decoder-enforced minimum lengths are deliberately not assumed. Seven genuine defects found this way were repaired in /repo (fix: commits listed in known_findings.json)."),
  'C06': dict(cat='model_checking', ref='5/C06',
    text="The real NEA1/NEA2/NEA3, NASEncrypt, snow3g and zuc code is executed symbolically with key, COUNT, bearer, direction and payload symbolic and proved equal to reference models transliterated from the SNOW 3G / UEA2, ZUC / EEA3 specifications and CTR mode: tables index-wise, leaf functions full width, one clock of each kind from an arbitrary state, initialisation, keystream prefixes, and the modes for every bit length 0..64 (256) / octet length 0..24 (40). Equalities are decided on canonical normal forms of the two symbolic results and by z3 where they differ; a second set of harnesses abstracts keystream words as uninterpreted functions so that mode-level deviations give short counterexamples.",
    note="AES is an uninterpreted function. Reference tables are golden copies validated natively. On a mutated tree a whole-cipher disequality may be beyond z3 within the timeout (reported INCONCLUSIVE); the one-step lemmas and abstracted harnesses are the ones expected to produce replayable counterexamples."),
